@@ -26,7 +26,7 @@ class MachineryError(Exception):
     """The machinery cannot decide (exit 2); never a silent pass, never a VIOLATION."""
 
 
-FACTS_VERSION = 4      # bump when the driver's output changes: older cached fact files are then ignored
+FACTS_VERSION = 5      # bump when the driver's output changes: older cached fact files are then ignored
 
 
 def repo_root():
